@@ -159,10 +159,33 @@ func c12Fixture(c *ipa.IPAConfig, seed int64) c12fix {
 func c12Free(r *core.Result, seed int64, reps int) {
 	c := conf()
 	ops := c12Ops()
+	// Phase A — first use: on the freshly built configuration (nothing has been called yet in this process),
+	// every operation in both argument slots, all at once; lazily built or memoised shared state is
+	// initialised under contention here, not by a sequential warm-up.
+	first := make([][2]string, len(ops))
+	{
+		var wg sync.WaitGroup
+		for i := range ops {
+			for slot := 0; slot < 2; slot++ {
+				wg.Add(1)
+				go func(i, slot int) {
+					defer wg.Done()
+					first[i][slot] = ops[i].f(c, seed, slot)
+				}(i, slot)
+			}
+		}
+		wg.Wait()
+	}
 	alone := make([][2]string, len(ops))
 	for i, op := range ops {
 		alone[i][0] = op.f(c, seed, 0)
 		alone[i][1] = op.f(c, seed, 1)
+		r.Evals++
+		for slot := 0; slot < 2; slot++ {
+			if first[i][slot] != alone[i][slot] {
+				vio(r, "c12.interference", op.name, fmt.Sprintf("first use of a fresh configuration: all %d operations x 2 argument slots concurrently (free-running, GOMAXPROCS=%s)", len(ops), os.Getenv("GOMAXPROCS")), "same output as when executed alone: "+clipS(alone[i][slot]), clipS(first[i][slot]))
+			}
+		}
 	}
 	fp0 := sharedFingerprint(c)
 	for rep := 0; rep < reps; rep++ {
@@ -299,12 +322,33 @@ func c12Units(ctx *core.Ctx) []core.Unit {
 			out, err := cmd.Output()
 			es := errb.String()
 			if strings.Contains(es, "DATA RACE") {
-				i := strings.Index(es, "WARNING: DATA RACE")
-				rep := es[i:]
-				if len(rep) > 3000 {
-					rep = rep[:3000]
+				// a report counts against the property only when the racing accesses are in go-ipa itself
+				// (a race confined to harness code is a tooling error)
+				reports := strings.Split(es, "WARNING: DATA RACE")[1:]
+				found := false
+				for _, rep := range reports {
+					if end := strings.Index(rep, "=================="); end >= 0 {
+						rep = rep[:end]
+					}
+					impl := false
+					for _, ln := range strings.Split(rep, "\n") {
+						if strings.Contains(ln, "github.com/crate-crypto/go-ipa") && !strings.Contains(ln, "/zzverif/") {
+							impl = true
+						}
+					}
+					if impl {
+						if len(rep) > 3000 {
+							rep = rep[:3000]
+						}
+						vio(r, "c12.race", "race detector", "all pairs of the C12 bodies free-running under -race, GOMAXPROCS="+gmp, "no data race report", "WARNING: DATA RACE"+rep)
+						found = true
+						break
+					}
 				}
-				vio(r, "c12.race", "race detector", "all pairs of the C12 bodies free-running under -race, GOMAXPROCS="+gmp, "no data race report", rep)
+				if !found {
+					r.ToolError = "race detector reported a race confined to harness code:\n" + clip3k(es)
+					return
+				}
 			}
 			if err != nil {
 				if !strings.Contains(es, "DATA RACE") {
